@@ -86,61 +86,83 @@ func (handler *tccFenceWrapperHandler) PrepareFence(ctx context.Context, tx *sql
 }
 
 func (handler *tccFenceWrapperHandler) CommitFence(ctx context.Context, tx *sql.Tx) error {
+	_, err := handler.CommitFenceWithResult(ctx, tx)
+	return err
+}
+
+// CommitFenceWithResult does the commit fence and also tells whether the
+// business commit has to run: it must not when the branch was committed before
+// (a repeated delivery is answered with success and without a second effect).
+func (handler *tccFenceWrapperHandler) CommitFenceWithResult(ctx context.Context, tx *sql.Tx) (runBusiness bool, err error) {
 	xid := tm.GetBusinessActionContext(ctx).Xid
 	branchId := tm.GetBusinessActionContext(ctx).BranchId
 
 	fenceDo, err := handler.tccFenceDao.QueryTCCFenceDO(tx, xid, branchId)
 	if err != nil {
-		return fmt.Errorf(" commit fence method failed. xid= %s, branchId= %d, [%w]", xid, branchId, err)
+		return false, fmt.Errorf(" commit fence method failed. xid= %s, branchId= %d, [%w]", xid, branchId, err)
 	}
 	if fenceDo == nil {
-		return fmt.Errorf("tcc fence record not exists, commit fence method failed. xid= %s, branchId= %d", xid, branchId)
+		return false, fmt.Errorf("tcc fence record not exists, commit fence method failed. xid= %s, branchId= %d", xid, branchId)
 	}
 
 	if fenceDo.Status == enum.StatusCommitted {
 		log.Infof("branch transaction has already committed before. idempotency rejected. xid: %s, branchId: %d, status: %d", xid, branchId, fenceDo.Status)
-		return nil
+		return false, nil
 	}
 	if fenceDo.Status == enum.StatusRollbacked || fenceDo.Status == enum.StatusSuspended {
 		// enable warn level
 		log.Warnf("branch transaction status is unexpected. xid: %s, branchId: %d, status: %s", xid, branchId, fenceDo.Status)
-		return fmt.Errorf("branch transaction status is unexpected. xid: %s, branchId: %d, status: %d", xid, branchId, fenceDo.Status)
+		return false, fmt.Errorf("branch transaction status is unexpected. xid: %s, branchId: %d, status: %d", xid, branchId, fenceDo.Status)
 	}
 
-	return handler.updateFenceStatus(tx, xid, branchId, enum.StatusCommitted)
+	if err = handler.updateFenceStatus(tx, xid, branchId, enum.StatusCommitted); err != nil {
+		return false, err
+	}
+	return true, nil
 }
 
 func (handler *tccFenceWrapperHandler) RollbackFence(ctx context.Context, tx *sql.Tx) error {
+	_, err := handler.RollbackFenceWithResult(ctx, tx)
+	return err
+}
+
+// RollbackFenceWithResult does the rollback fence and also tells whether the
+// business rollback has to run: it must not when the try never ran (the
+// suspension is recorded instead) or when the branch was rolled back before.
+func (handler *tccFenceWrapperHandler) RollbackFenceWithResult(ctx context.Context, tx *sql.Tx) (runBusiness bool, err error) {
 	xid := tm.GetBusinessActionContext(ctx).Xid
 	branchId := tm.GetBusinessActionContext(ctx).BranchId
 	actionName := tm.GetBusinessActionContext(ctx).ActionName
 	fenceDo, err := handler.tccFenceDao.QueryTCCFenceDO(tx, xid, branchId)
 	if err != nil {
-		return fmt.Errorf("rollback fence method failed. xid= %s, branchId= %d, [%w]", xid, branchId, err)
+		return false, fmt.Errorf("rollback fence method failed. xid= %s, branchId= %d, [%w]", xid, branchId, err)
 	}
 
 	// record is null, mean the need suspend
 	if fenceDo == nil {
 		err = handler.insertTCCFenceLog(tx, xid, branchId, actionName, enum.StatusSuspended)
 		if err != nil {
-			return fmt.Errorf("insert tcc fence record errors, rollback fence failed. xid= %s, branchId= %d, [%w]", xid, branchId, err)
+			return false, fmt.Errorf("insert tcc fence record errors, rollback fence failed. xid= %s, branchId= %d, [%w]", xid, branchId, err)
 		}
 		log.Infof("Insert tcc fence suspend record xid: %s, branchId: %d", xid, branchId)
-		return nil
+		return false, nil
 	}
 
 	// have rollbacked or suspended
 	if fenceDo.Status == enum.StatusRollbacked || fenceDo.Status == enum.StatusSuspended {
 		// enable warn level
 		log.Infof("Branch transaction had already rollbacked before, idempotency rejected. xid: %s, branchId: %d, status: %s", xid, branchId, fenceDo.Status)
-		return nil
+		return false, nil
 	}
 	if fenceDo.Status == enum.StatusCommitted {
 		log.Warnf("Branch transaction status is unexpected. xid: %s, branchId: %d, status: %d", xid, branchId, fenceDo.Status)
-		return fmt.Errorf("branch transaction status is unexpected. xid: %s, branchId: %d, status: %d", xid, branchId, fenceDo.Status)
+		return false, fmt.Errorf("branch transaction status is unexpected. xid: %s, branchId: %d, status: %d", xid, branchId, fenceDo.Status)
 	}
 
-	return handler.updateFenceStatus(tx, xid, branchId, enum.StatusRollbacked)
+	if err = handler.updateFenceStatus(tx, xid, branchId, enum.StatusRollbacked); err != nil {
+		return false, err
+	}
+	return true, nil
 }
 
 func (handler *tccFenceWrapperHandler) insertTCCFenceLog(tx *sql.Tx, xid string, branchId int64, actionName string, status enum.FenceStatus) error {
